@@ -37,7 +37,8 @@ class CacheLock:
         last_timestamp = _read_last_cached_time(self.cache_folder)
         self.current_timestamp = time.time()
         time_since_update = self.current_timestamp - last_timestamp
-        if time_since_update < self.time_threshold:
+        # The refresh interval only applies to refreshes (write_time); local operations are never "too recent".
+        if self.write_time and time_since_update < self.time_threshold:
             raise CacheException(f"Last updated {time_since_update} seconds ago.  Threshold is {self.time_threshold}")
 
         try:
